@@ -98,6 +98,33 @@ def search(big=False):
         f = check(vals, False)
         if f:
             return n, f
+    # equal (and nearly equal) floats: the computed variance is 0 up to rounding, possibly a tiny negative number; the
+    # statistics must still be produced (values compared with the tolerance of close())
+    for v in (0.1, 0.7, 1.1, 1e9 + 0.1, 2.675):
+        for k in (2, 3, 4, 7):
+            n += 1
+            f = check([v] * k, False)
+            if f:
+                return n, f
+    # the statistics do not depend on how the loop is sorted / reversed / batched: median-x under a sort on the same
+    # variable with a comparison function that disagrees with <
+    from DocumentTemplate.DT_HTML import HTML
+
+    class O:
+        def __init__(self, x):
+            self.x = x
+    for vals, want in ((['B', 'a', 'c'], 'a'), ([1, 30, 12, 9, 2], '9'), ([3, 1, 2], '2')):
+        for opts in ('sort=x/nocase', 'sort=x/nocase reverse', 'sort=x/cmp/desc', 'sort=x', 'reverse', 'sort=x/nocase size=10'):
+            if opts.startswith('sort=x/nocase') and not isinstance(vals[0], str):
+                continue
+            n += 1
+            src = '<dtml-in seq %s><dtml-if sequence-end><dtml-var median-x></dtml-if></dtml-in>' % opts
+            try:
+                out = HTML(src)(seq=[O(v) for v in vals])
+            except Exception as e:  # noqa
+                out = 'RAISED:' + type(e).__name__
+            if out != want:
+                return n, dict(source=src, values=vals, output=out, expected=want, what='median-x is not the middle value')
     return n, None
 
 
